@@ -135,19 +135,28 @@ func encodeLength(out *bytes.Buffer, length int) (err error) {
 func readObject(ber []byte, offset int) (asn1Object, int, error) {
 	//fmt.Printf("\n====> Starting readObject at offset: %d\n\n", offset)
 	tagStart := offset
+	if offset >= len(ber) {
+		return nil, 0, errors.New("ber2der: cannot read tag, input ended")
+	}
 	b := ber[offset]
 	offset++
 	tag := b & 0x1F // last 5 bits
 	if tag == 0x1F {
 		tag = 0
-		for ber[offset] >= 0x80 {
+		for offset < len(ber) && ber[offset] >= 0x80 {
 			tag = tag*128 + ber[offset] - 0x80
 			offset++
+		}
+		if offset >= len(ber) {
+			return nil, 0, errors.New("ber2der: cannot read tag, input ended")
 		}
 		tag = tag*128 + ber[offset] - 0x80
 		offset++
 	}
 	tagEnd := offset
+	if offset >= len(ber) {
+		return nil, 0, errors.New("ber2der: cannot read length, input ended")
+	}
 
 	kind := b & 0x20
 	/*
@@ -166,6 +175,9 @@ func readObject(ber []byte, offset int) (asn1Object, int, error) {
 		numberOfBytes := (int)(l & 0x7F)
 		if numberOfBytes > 4 { // int is only guaranteed to be 32bit
 			return nil, 0, errors.New("ber2der: BER tag length too long")
+		}
+		if offset+numberOfBytes > len(ber) {
+			return nil, 0, errors.New("ber2der: cannot read length, input ended")
 		}
 		if numberOfBytes == 4 && (int)(ber[offset]) > 0x7F {
 			return nil, 0, errors.New("ber2der: BER tag length is negative")
@@ -187,7 +199,7 @@ func readObject(ber []byte, offset int) (asn1Object, int, error) {
 
 	//fmt.Printf("--> length        : %d\n", length)
 	contentEnd := offset + length
-	if contentEnd > len(ber) {
+	if length < 0 || contentEnd > len(ber) {
 		return nil, 0, errors.New("ber2der: BER tag length is more than available data")
 	}
 	//fmt.Printf("--> content start : %d\n", offset)
